@@ -275,8 +275,8 @@ func zero(t types.Type) Value {
 	panic(fmt.Sprint("zero: unexpected ", t))
 }
 
-// Chan is a placeholder: channels are not supported beyond nil values.
-type Chan struct{}
+
+
 
 func deref(t types.Type) types.Type {
 	if p, ok := t.Underlying().(*types.Pointer); ok {
